@@ -28,7 +28,7 @@ func FullRangeTests(p *core.Program, r *core.Report, rule string) {
 			if fn == nil {
 				return true
 			}
-			if fn.Name() == "New" && len(c.Args) == 2 {
+			if core.RefName(fn) == "New" && len(c.Args) == 2 {
 				lo, hi := info.Types[c.Args[0]].Value, info.Types[c.Args[1]].Value
 				if lo != nil && hi != nil {
 					l, _ := constant.Int64Val(lo)
@@ -38,7 +38,7 @@ func FullRangeTests(p *core.Program, r *core.Report, rule string) {
 					}
 				}
 			}
-			if fn.Name() == "MakePortSet" && len(c.Args) == 1 && core.ExprStr(c.Args[0]) == "true" {
+			if core.RefName(fn) == "MakePortSet" && len(c.Args) == 1 && core.ExprStr(c.Args[0]) == "true" {
 				found = true
 			}
 			return true
@@ -54,7 +54,7 @@ func FullRangeTests(p *core.Program, r *core.Report, rule string) {
 		ast.Inspect(fd.Decl.Body, func(n ast.Node) bool {
 			switch x := n.(type) {
 			case *ast.CallExpr:
-				if fn := core.Callee(info, x); fn != nil && fn.Name() == "Equal" && len(x.Args) == 1 && isFull(info, x.Args[0]) {
+				if fn := core.Callee(info, x); fn != nil && core.RefName(fn) == "Equal" && len(x.Args) == 1 && isFull(info, x.Args[0]) {
 					nIdiom++
 					r.OK(rule, fmt.Sprintf("%s: full-range test by equality with the full interval", fd.Key()), p.Pos(x.Pos()), core.ExprStr(x))
 				}
@@ -68,7 +68,7 @@ func FullRangeTests(p *core.Program, r *core.Report, rule string) {
 						continue
 					}
 					fn := core.Callee(info, c)
-					if fn == nil || (fn.Name() != "Min" && fn.Name() != "Max") || fn.Pkg() == nil || fn.Pkg().Path() == core.PkgCommon {
+					if fn == nil || (core.RefName(fn) != "Min" && core.RefName(fn) != "Max") || fn.Pkg() == nil || fn.Pkg().Path() == core.PkgCommon {
 						continue
 					}
 					v := info.Types[pr[1]].Value
@@ -113,7 +113,7 @@ func FullRangeTests(p *core.Program, r *core.Report, rule string) {
 			}
 			fn := core.Callee(w.Info, c)
 			se, isSe := ast.Unparen(c.Fun).(*ast.SelectorExpr)
-			if fn == nil || !isSe || fn.Name() != "Equal" || !isFull(w.Info, c.Args[0]) {
+			if fn == nil || !isSe || core.RefName(fn) != "Equal" || !isFull(w.Info, c.Args[0]) {
 				return nil
 			}
 			if rs := fn.Type().(*types.Signature).Recv(); rs != nil && core.TypeIs(rs.Type(), core.PkgCommon, "PortSet") {
@@ -124,7 +124,7 @@ func FullRangeTests(p *core.Program, r *core.Report, rule string) {
 		inNamedLoop := func() bool {
 			for _, l := range w.Loops {
 				if rs, isRs := l.(*ast.RangeStmt); isRs {
-					if f := core.FieldOf(info, rs.X); f != nil && f.Name() == "NamedPorts" {
+					if f := core.FieldOf(info, rs.X); f != nil && core.RefName(f) == "NamedPorts" {
 						if root := core.RootIdent(rs.X); root != nil && sig.Recv() != nil && info.ObjectOf(root) == types.Object(sig.Recv()) {
 							return true
 						}
@@ -135,7 +135,7 @@ func FullRangeTests(p *core.Program, r *core.Report, rule string) {
 		}
 		w.OnStmt = func(st ast.Stmt, f facts.Formula) {
 			if rs, isRs := st.(*ast.RangeStmt); isRs {
-				if fl := core.FieldOf(info, rs.X); fl != nil && fl.Name() == "NamedPorts" {
+				if fl := core.FieldOf(info, rs.X); fl != nil && core.RefName(fl) == "NamedPorts" {
 					nLoops++
 				}
 			}
@@ -154,7 +154,7 @@ func FullRangeTests(p *core.Program, r *core.Report, rule string) {
 				root := strings.TrimSuffix(strings.TrimPrefix(facts.StripVersions(a), "full:"), ".Ports")
 				isOperand := false
 				for k := 0; k < sig.Params().Len(); k++ {
-					if sig.Params().At(k).Name() == root {
+					if core.RefName(sig.Params().At(k)) == root {
 						isOperand = true
 					}
 				}
@@ -225,7 +225,7 @@ func PortSetEncapsulation(p *core.Program, r *core.Report, rule string) {
 		if sig.Recv() != nil && core.TypeIs(sig.Recv().Type(), core.PkgCommon, "PortSet") {
 			continue
 		}
-		if fd.Obj.Name() == "MakePortSet" && fd.Pkg.PkgPath == core.PkgCommon {
+		if core.RefName(fd.Obj) == "MakePortSet" && fd.Pkg.PkgPath == core.PkgCommon {
 			continue
 		}
 		info := fd.Pkg.TypesInfo
@@ -239,18 +239,18 @@ func PortSetEncapsulation(p *core.Program, r *core.Report, rule string) {
 			if f == nil || !fields[f] {
 				return true
 			}
-			key := fd.Key() + " | " + f.Name()
+			key := fd.Key() + " | " + core.RefName(f)
 			if seen[key] {
 				return true
 			}
 			seen[key] = true
 			n++
-			construct := fmt.Sprintf("%s: reads PortSet.%s directly", fd.Key(), f.Name())
+			construct := fmt.Sprintf("%s: reads PortSet.%s directly", fd.Key(), core.RefName(f))
 			if why, ok := portSetOutsideReaders[key]; ok {
 				r.Add(rule, construct, p.Pos(se.Pos()), core.Excepted, why)
 				return true
 			}
-			r.Bad(rule, construct, p.Pos(se.Pos()), "a component of a port set is consulted outside PortSet's own methods: a test on "+f.Name()+" alone (is it empty? does it contain? is it full?) forgets the other components - numbered and named ports together are the set")
+			r.Bad(rule, construct, p.Pos(se.Pos()), "a component of a port set is consulted outside PortSet's own methods: a test on "+core.RefName(f)+" alone (is it empty? does it contain? is it full?) forgets the other components - numbered and named ports together are the set")
 			return true
 		})
 	}
